@@ -478,7 +478,7 @@ def_check!(Backlog, "backlog", backlog_strategy);
 def_check!(Abandon, "abandon", abandon_strategy);
 
 pub fn run(ctx: &mut Ctx) {
-    ctx.rule("MC on a loss-free network with events placed at distinct instants (SYNs at even, accept calls and their abandonment at odd milliseconds). fifo: 2..20/31 connect calls from 1..3 client sockets, accept calls (30 % abandoned) before and after the requests, duplicate SYNs re-injected while the original is queued or alive, listener limit 64 or 2..6. backlog: up to 12 real and up to 76 raw SYNs from unbound addresses, 0..2 early and 0..44 late accept calls. abandon: connect calls abandoned while their SYN is lost / queued, accept calls abandoned before any request, then 1..4 connects, one after the other, that must succeed. Oracle: a reference model of the two FIFO queues (32 requests) predicts for every accept call which request it receives and for every request whether a RESET leaves at its arrival instant; every Ok connect has exactly one accepted stream delivering its token and the two streams carry each other's keyed bytes to completion; an accepted request whose connector still waits completes that connect. non-trivial = two or more pairs, a backlog RESET, or a post-abandon success; distinct by outcome hash");
+    ctx.rule("MC on a loss-free network with events placed at distinct instants (SYNs at even, accept calls and their abandonment at odd milliseconds). fifo: 2..20/31 connect calls from 1..3 client sockets, accept calls (30 % abandoned) before and after the requests, duplicate SYNs re-injected while the original is queued or alive, listener limit 64 or 2..6 (limited listener: order of the streams handed out; no accept call ever fails). backlog: up to 12 real and up to 76 raw SYNs from unbound addresses, 0..2 early and 0..44 late accept calls. abandon: connect calls abandoned while their SYN is lost / queued, accept calls abandoned before any request, then 1..4 connects, one after the other, that must succeed. Oracle: a reference model of the two FIFO queues (32 requests) predicts for every accept call which request it receives and for every request whether a RESET leaves at its arrival instant; every Ok connect has exactly one accepted stream delivering its token and the two streams carry each other's keyed bytes to completion; an accepted request whose connector still waits completes that connect. non-trivial = two or more pairs, a backlog RESET, or a post-abandon success; distinct by outcome hash");
     ctx.assume("SYNs of one socket leave in the order of its connect calls (refused calls send none); duplicates arrive while the original is queued or its connection alive (connections are held >= 3 s, duplicates injected within 2.5 s)");
     ctx.replay_corpus::<Fifo>();
     ctx.replay_corpus::<Backlog>();
